@@ -37,6 +37,7 @@ RT_CALENDAR = "{%s}calendar" % CAL
 RT_ADDRESSBOOK = "{%s}addressbook" % CARD
 RT_PRINCIPAL = "{%s}principal" % DAV
 RT_INBOX = "{%s}schedule-inbox" % CAL
+RT_SUBSCRIBED = "{%s}subscribed" % CS
 
 XML_CT = ("Content-Type", "text/xml; charset=utf-8")
 
